@@ -656,6 +656,7 @@ Proof.
     + ldef i (LUser ULSafeDet m tg xs) H.
     + ldef i (LUser ULSafeMsg m tg xs) H.
     + ldef i (LUser ULHint m tg xs) H.
+    + ldef i (LUser ULDual m tg xs) H.
 Qed.
 
 Lemma agood_leaf i k : aleaf k -> agood (Leaf i k).
@@ -2429,6 +2430,9 @@ Proof.
       split; [now rewrite B|exact A].
     + apply andb_true_iff in H2 as [H2 H3]. cbn [one_line_spec] in H3. destruct (Hpre H2 H3) as [Q1 Q2].
       destruct (simple_wrap_ok (bs_oid s1) (WUser UWAs msg xs) e (msg ++ colon_sp ++ error_text e) I Ae eq_refl Q1 Q2) as [A B].
+      split; [now rewrite B|exact A].
+    + apply andb_true_iff in H2 as [H2 H3]. cbn [one_line_spec] in H3. destruct (Hpre H2 H3) as [Q1 Q2].
+      destruct (simple_wrap_ok (bs_oid s1) (WUser UWNoCmp msg xs) e (msg ++ colon_sp ++ error_text e) I Ae eq_refl Q1 Q2) as [A B].
       split; [now rewrite B|exact A].
   - (* RTransfer *) discriminate.
 Qed.
